@@ -98,10 +98,10 @@ template <class Q, bool B> static int run(int argc, char** argv) {
     std::string mode = argv[1]; int cap = atoi(argv[4]); Stats st; vh::Timer tm;
     for (int i = 8; i < argc; i++) PROG.push_back(vh::split(argv[i], ','));
     N = (int)PROG.size();
-    static const int dens[4] = {1, 3, 10, 40};
+    static const int dens[8] = {1, 3, 10, 40, -1, -2, -3, -5};
     if (mode == "random") {
         int n = atoi(argv[5]); unsigned long seed0 = strtoul(argv[6], nullptr, 10); TR.open(argv[7]);
-        for (int r = 0; r < n && st.stuck < 10; r++) run_one<Q, B>(cap, seed0 + r, dens[r % 4], false, st);
+        for (int r = 0; r < n && st.stuck < 10; r++) run_one<Q, B>(cap, seed0 + r, dens[r % 8], false, st);
         TR.close();
     } else {
         std::string kind = argv[5]; int kmax = atoi(argv[6]);
